@@ -130,6 +130,15 @@ impl<T> RawTable<T> {
     /// current elements, as well as some additional elements due to incremental resizing.
     #[cfg_attr(feature = "inline-more", inline)]
     pub(crate) fn shrink_to(&mut self, min_size: usize, hasher: impl Fn(&T) -> u64) {
+        // Leftovers that have since been emptied by removals hold nothing that still has to move.
+        // Drop them now: otherwise we may shrink the table to _exactly_ fit while still being
+        // split, and the next insert would find a full table with leftovers.
+        if let Some(ref lo) = self.leftovers {
+            if lo.table.len() == 0 {
+                let _ = self.leftovers.take();
+            }
+        }
+
         // Calculate the minimal number of elements that we need to reserve
         // space for.
         let mut need = self.table.len();
